@@ -186,8 +186,11 @@ Definition ce_accepted (c : kcase) : Prop :=
   (* an error that is not the predicate's leaves the table exactly as it was *)
   (b_err o = true -> b_pred_err o = false -> b_table o = k_pre c) /\
   (* re-read after later Process calls: still the stored document *)
-  (forall x, b_final o = Some x -> x = tget key (b_table o)).
+  (forall x, b_final o = Some x -> x = tget key (b_table o)) /\
+  b_still o = true.
 
+Lemma ce_chk_still_iff o : ce_chk_still o = [] <-> b_still o = true.
+Proof. unfold ce_chk_still. apply ite_nil_iff. Qed.
 Lemma ce_chk_model_iff c : ce_chk_model c = [] <-> (forall v, y_data (k_payload c) = DVal v -> wf v).
 Proof.
   unfold ce_chk_model. destruct (y_data (k_payload c)) as [|v|].
@@ -238,7 +241,7 @@ Theorem run_ce_nil_iff c : run_ce c = [] <-> ce_accepted c.
 Proof.
   unfold run_ce, ce_accepted. destruct (model_ce c) as [[e' oc] calls]. cbn [fst snd].
   rewrite !app_nil_iff, ce_chk_model_iff, ce_chk_err_iff, ce_chk_out_iff, ce_chk_doc_iff, ce_chk_other_iff, ce_chk_frame_iff,
-    ce_chk_calls_iff, ce_chk_stored_iff, ce_chk_errstored_iff, ce_chk_final_iff. tauto.
+    ce_chk_calls_iff, ce_chk_stored_iff, ce_chk_errstored_iff, ce_chk_final_iff, ce_chk_still_iff. tauto.
 Qed.
 
 (* ------------------------------------------------------------------ histories on one node *)
